@@ -35,6 +35,7 @@ type TierSpec struct {
 	TimeoutS int              `json:"timeout_s"` // wall budget for exploration
 	QueryMs  int              `json:"query_ms"`
 	MaxPaths int              `json:"max_paths"`
+	EntryParams map[string]map[string]int64 `json:"entry_params"` // tier-specific per-entry overrides
 }
 
 type Spec struct {
@@ -356,6 +357,9 @@ func cmdRun(args []string) int {
 			eng.params[k] = v
 		}
 		for k, v := range spec.EntryParams[en] {
+			eng.params[k] = v
+		}
+		for k, v := range ts.EntryParams[en] {
 			eng.params[k] = v
 		}
 		replayParams = eng.params
